@@ -1,4 +1,125 @@
-import ZckModel.Writer
+/-
+C01 — Round trip: anything written reads back byte-identical and fully valid.
+What is proved about the chunker model (`Writer.lean`), for EVERY configuration with legal limits,
+every content and every sequence of write / end-of-chunk calls, manual or automatic:
+a successful close never loses, duplicates or reorders bytes — the data chunks of the produced
+file, concatenated in order, are exactly the bytes written.  (That each chunk is stored, indexed,
+check-summed and decoded back correctly is the reader-side properties C02/C13/C15 plus the codec
+round-trip assumption; end to end it is exercised by the WRITE ops, which re-open, validate and
+read back every produced file.)  Termination of the write path is NOT a theorem: the model's
+re-examination loop carries fuel and the C loop's termination depends on rolling-hash values;
+hangs are looked for by the correspondence runs under a wall-clock bound.
+-/
+import ZckModel.WriterLemmas
+import ZckModel.Tools
 import ZckModel.Pred.Write
+
 namespace Zck.C01
+open Zck Zck.Writer
+
+/-- invariant of the writer state between API calls -/
+def J (cfg : Cfg) (st : St) : Prop := Wf st ∧ (cfg.manual = true → st.curLen ≤ cfg.chunkMax)
+
+def opBytes : Op → Bytes
+  | .write bs => bs
+  | .endChunk => []
+
+theorem endChunk_curLen (cfg : Cfg) (st : St) (force : Bool) :
+    (endChunk cfg st force).curLen = st.curLen ∨ (endChunk cfg st force).curLen = 0 := by
+  unfold endChunk
+  split
+  · left; rfl
+  · split
+    · left; rfl
+    · right; rfl
+
+/-- one API call accounts for exactly its bytes -/
+theorem applyOp_content (cfg : Cfg) (hl : Legal cfg) (st st' : St) (op : Op) (hj : J cfg st)
+    (h : applyOp cfg st op = some st') : content st' = content st ++ opBytes op ∧ J cfg st' := by
+  cases op with
+  | endChunk =>
+    simp only [applyOp, Option.some.injEq] at h
+    subst h
+    refine ⟨by simp [endChunk_content, opBytes], endChunk_wf cfg st false hj.1, ?_⟩
+    intro hm
+    rcases endChunk_curLen cfg st false with h | h
+    · rw [h]; exact hj.2 hm
+    · rw [h]; omega
+  | write bs =>
+    unfold applyOp at h
+    by_cases he : bs.isEmpty = true
+    · simp only [he, ↓reduceIte, Option.some.injEq] at h
+      subst h
+      have : bs = [] := by simpa using he
+      subst this
+      exact ⟨by simp [opBytes], hj⟩
+    · simp only [he, Bool.false_eq_true, ↓reduceIte] at h
+      by_cases hm : cfg.manual = true
+      · simp only [hm, ↓reduceIte, Option.some.injEq] at h
+        subst h
+        have := writeManual_content cfg hl (bs.length + 1) st bs hj.1 (hj.2 hm) (by split <;> omega)
+        exact ⟨this.1, this.2.1, fun _ => this.2.2⟩
+      · simp only [hm, Bool.false_eq_true, ↓reduceIte] at h
+        have := writeAuto_content cfg bs st st' hj.1 h
+        exact ⟨this.1, this.2, fun hm' => absurd hm' hm⟩
+
+theorem run_content (cfg : Cfg) (hl : Legal cfg) : ∀ (ops : List Op) (st st' : St), J cfg st →
+    run cfg st ops = some st' → content st' = content st ++ written ops ∧ J cfg st'
+  | [], st, st', hj, h => by
+    simp only [run, Option.some.injEq] at h; subst h; exact ⟨by simp [written], hj⟩
+  | op :: ops, st, st', hj, h => by
+    simp only [run] at h
+    cases ha : applyOp cfg st op with
+    | none => rw [ha] at h; cases h
+    | some s =>
+      rw [ha] at h
+      obtain ⟨c1, j1⟩ := applyOp_content cfg hl st s op hj ha
+      obtain ⟨c2, j2⟩ := run_content cfg hl ops s st' j1 h
+      refine ⟨?_, j2⟩
+      rw [c2, c1, List.append_assoc]
+      congr 1
+      cases op <;> simp [written, opBytes]
+
+/-- **C01 (structure)**: for every legal configuration and every sequence of write /
+end-of-chunk calls, if the calls and the close complete, the data chunks of the file,
+concatenated in order, are exactly the bytes that were written: nothing lost (not even a final
+chunk below the minimum size), nothing duplicated, nothing reordered. -/
+theorem W_structure (cfg : Cfg) (hl : Legal cfg.norm) (ops : List Op) (cs : List Bytes)
+    (h : closeChunks cfg ops = some cs) : cs.flatten = written ops := by
+  unfold closeChunks at h
+  cases hr : run cfg.norm {} ops with
+  | none => rw [hr] at h; cases h
+  | some st =>
+    rw [hr] at h
+    simp only [Option.map_some, Option.some.injEq] at h
+    have hj0 : J cfg.norm {} := ⟨wf_init, fun _ => Nat.zero_le _⟩
+    obtain ⟨c1, j1⟩ := run_content cfg.norm hl ops {} st hj0 hr
+    have hc : content (endChunk cfg.norm st true) = written ops := by
+      rw [endChunk_content, c1]; simp [content, St.cur]
+    -- after the forced end nothing is left under construction
+    have hempty : (endChunk cfg.norm st true).cur = [] := by
+      rcases endChunk_chunks cfg.norm st true with hc' | ⟨_, _, hr0, _, _⟩
+      · -- nothing was appended: only possible when nothing was under construction
+        unfold endChunk at hc' ⊢
+        by_cases h0 : st.curLen = 0
+        · have : st.curR.length = 0 := by rw [← j1.1]; exact h0
+          have hn : st.curR = [] := List.eq_nil_of_length_eq_zero this
+          simp [h0, St.cur, hn]
+        · simp [h0] at hc'
+      · simp [St.cur, hr0]
+    rw [← h]
+    have := hc
+    unfold content at this
+    rw [hempty, List.append_nil] at this
+    exact this
+
+/-- the normalised default configuration is legal -/
+theorem defaults_legal : Legal (Cfg.norm { manual := false, chunkMin := 0, chunkMax := 0 }) := by
+  unfold Legal; decide
+
+/-! Non-vacuity (tests): a manual write crossing the maximum twice, and a final chunk below the minimum -/
+example : closeChunks { manual := true, chunkMin := 3, chunkMax := 4 } [.write [1,2,3,4,5,6,7,8,9], .endChunk, .write [10]]
+    = some [[1,2,3,4], [5,6,7,8], [9, 10]] := by decide
+example : closeChunks { manual := true, chunkMin := 5, chunkMax := 100 } [.write [1,2]] = some [[1,2]] := by decide
+
 end Zck.C01
